@@ -195,3 +195,6 @@ Definition ex_chrome133 : bool :=
 
 Lemma ex_chrome133_ok : ex_chrome133 = true.
 Proof. vm_compute. reflexivity. Qed.
+
+(* imported last, for the driver's closure scan only (see the end of Props/C12.v) *)
+From UV Require Import Model.Preset Proofs.PresetP Gen.Parrots.
